@@ -2386,6 +2386,47 @@ func main() {
 	b.WriteString(strings.Join(pts, ",\n"))
 	b.WriteString("\n]\n\n")
 
+	// capacity limits of bounded tables: constructor NewT() { p.F = hmap.NewX().SetMax(CONST) }
+	b.WriteString("/-- bounded tables inside packs: (type, field, limit) as the constructors set them (SetMax) -/\ndef caps : List (String × String × Int) := [\n")
+	var caps []string
+	for _, f := range funcs {
+		if f.recv != "" || !strings.HasPrefix(f.name, "New") || f.decl.Body == nil {
+			continue
+		}
+		ty, ok := ctorType[f.name]
+		if !ok {
+			continue
+		}
+		ast.Inspect(f.decl.Body, func(n ast.Node) bool {
+			as, ok := n.(*ast.AssignStmt)
+			if !ok || len(as.Lhs) != 1 || len(as.Rhs) != 1 {
+				return true
+			}
+			ls, ok := as.Lhs[0].(*ast.SelectorExpr)
+			if !ok {
+				return true
+			}
+			ast.Inspect(as.Rhs[0], func(m ast.Node) bool {
+				call, ok := m.(*ast.CallExpr)
+				if !ok || len(call.Args) != 1 {
+					return true
+				}
+				if sel, ok := call.Fun.(*ast.SelectorExpr); ok && sel.Sel.Name == "SetMax" {
+					v, ok := intLit(call.Args[0])
+					if !ok {
+						v = "-1"
+					}
+					caps = append(caps, fmt.Sprintf("  (%s, %s, %s)", q(ty), q(ls.Sel.Name), v))
+				}
+				return true
+			})
+			return true
+		})
+	}
+	sort.Strings(caps)
+	b.WriteString(strings.Join(caps, ",\n"))
+	b.WriteString("\n]\n\n")
+
 	// skeletons: one definition per function (name with '.' replaced by '_')
 	b.WriteString("/-! statement skeletons (statements touching a stream or the receiver's fields, normalised source text) -/\nnamespace skel\n")
 	var sks []string
